@@ -55,6 +55,8 @@ func seedEntries(f *testing.F) {
 			if extra, err := rfc6962.EncodeChain([][]byte{issuer}); err == nil {
 				f.Add(leaf, extra, int64(i))
 				f.Add(leaf, []byte{0, 0, 0}, int64(-1))
+				f.Add(leaf, rawVector([][]byte{{}}), int64(i))         // a chain of one zero-length certificate
+				f.Add(leaf, rawVector([][]byte{issuer, {}}), int64(i)) // ... or one after a real certificate
 			}
 		}
 		func() {
